@@ -155,9 +155,14 @@ func fcToType(fc FunCall) FType {
 }
 
 func lambdaToType(bToT func(Block) FType, le LambdaExpr) FType {
-	return frt.Pipe(frt.Pipe(slice.Map(func(_v1 Var) FType {
-		return _v1.Ftype
-	}, le.Params), (func(_r0 []FType) []FType { return slice.PushLast(bToT(le.Body), _r0) })), newFFunc)
+	ptypes := frt.IfElse(slice.IsEmpty(le.Params), (func() []FType {
+		return ([]FType{New_FType_FUnit})
+	}), (func() []FType {
+		return slice.Map(func(_v1 Var) FType {
+			return _v1.Ftype
+		}, le.Params)
+	}))
+	return frt.Pipe(frt.Pipe(ptypes, (func(_r0 []FType) []FType { return slice.PushLast(bToT(le.Body), _r0) })), newFFunc)
 }
 
 func ExprToType(expr Expr) FType {
